@@ -53,8 +53,16 @@ func c09Configs() []c09Config {
 		{"map+operators+undef", func() []expr.Option {
 			return []expr.Option{expr.AllowUndefinedVariables(), expr.Operator("+", "OpAny", "OpAdd")}
 		}, lib.Mode{Env: "map", Opt: true}},
+		// option VALUES built once and reused by every compile (strict and lenient compiles share them)
+		{"shared-option-values", func() []expr.Option { return []expr.Option{c09SharedEnvOpt} }, lib.Mode{Env: "noenv", Opt: true}},
+		{"shared-option-values+undef", func() []expr.Option { return []expr.Option{c09SharedEnvOpt, c09SharedUndefOpt} }, lib.Mode{Env: "noenv", Opt: true}},
 	}
 }
+
+var (
+	c09SharedEnvOpt   = expr.Env(henv.Env{})
+	c09SharedUndefOpt = expr.AllowUndefinedVariables()
+)
 
 // progKey is the canonical form of a program (bytecode, constants in order, locations).
 func progKey(p *vm.Program) string {
@@ -92,7 +100,8 @@ func c09Corpus(tier string) []*gen.Expr {
 	return out
 }
 
-var c09Extra = []string{"PtrOnly()", "PtrOnly() + I", "O.Get() + P.Get()", `{a: 1, b: 2, c: 3}`, `M["zz"]`, `MA["zz"]`, "A[1:2]", "filter(A, {# > 1})", "SA[0:1]", "map(OS, {.Next})", "O?.Next", "AA", "OS[0]"}
+var c09Extra = []string{"F in [5, 1, 3, 1, 4, 2]", `X in ["b", "a", "b", "c"]`, "F not in [2, 2, 1]", `["ab", S matches "a" + "b"]`, `S matches "a" + "b" and "ab" == S`, "Zz + 1", "Zz", "Zq == nil",
+	"PtrOnly()", "PtrOnly() + I", "O.Get() + P.Get()", `{a: 1, b: 2, c: 3}`, `M["zz"]`, `MA["zz"]`, "A[1:2]", "filter(A, {# > 1})", "SA[0:1]", "map(OS, {.Next})", "O?.Next", "AA", "OS[0]"}
 
 func init() { checks["C09"] = c09 }
 
@@ -108,10 +117,10 @@ func c09(r *report.Run) {
 		out  string
 	}
 	var probes []probe
-	for _, src := range []string{"PtrOnly()", "PtrOnly() + I", "O.Get()", "I + J", "Zz", "T1() and PtrOnly() > 0"} {
-		for _, m := range []lib.Mode{{Env: "struct", Opt: true}, {Env: "map", Opt: true}, {Env: "noenv", Opt: true}} {
+	for _, src := range []string{"PtrOnly()", "PtrOnly() + I", "O.Get()", "I + J", "Zz", "T1() and PtrOnly() > 0", "Zq == nil"} {
+		for _, m := range []lib.Mode{{Env: "struct", Opt: true}, {Env: "map", Opt: true}, {Env: "noenv", Opt: true}, {Env: "shared", Opt: true}} {
 			pr := probe{src: src, mode: m}
-			if p, err := lib.Compile(src, m); err != nil {
+			if p, err := c09ProbeCompile(src, m); err != nil {
 				pr.out = "error"
 			} else {
 				pr.out = progKey(p)
@@ -258,7 +267,7 @@ func c09(r *report.Run) {
 	}
 	for i, pr := range probes {
 		out := "error"
-		if p, err := lib.Compile(pr.src, pr.mode); err == nil {
+		if p, err := c09ProbeCompile(pr.src, pr.mode); err == nil {
 			out = progKey(p)
 		}
 		if out != pr.out {
@@ -296,6 +305,14 @@ func mk2(e *gen.Expr, v henv.Val) *henv.Env {
 		return henv.MakeFull(v)
 	}
 	return henv.Make(v)
+}
+
+// c09ProbeCompile: mode "shared" is a strict compile with the shared Env option value.
+func c09ProbeCompile(src string, m lib.Mode) (*vm.Program, error) {
+	if m.Env == "shared" {
+		return lib.Compile(src, lib.Mode{Env: "noenv", Opt: true}, c09SharedEnvOpt)
+	}
+	return lib.Compile(src, m)
 }
 
 func trunc(s string) string {
